@@ -9,7 +9,7 @@ import (
 
 // ANode is a node of an arithmetic expression tree.
 type ANode struct {
-	Kind string `json:"k"`           // num var un bin cond asg preinc predec postinc postdec
+	Kind string `json:"k"`            // num var un bin cond asg preinc predec postinc postdec
 	Op   string `json:"op,omitempty"` // operator of un / bin / asg
 	S    string `json:"s,omitempty"`  // constant text, variable name, or the (non-)lvalue text
 	A    *ANode `json:"a,omitempty"`
